@@ -9,7 +9,8 @@ CONFIG = {
     "trusted_base": [
         KERNEL, TRANSLATOR + " (ReflectGen.v: keyed composite literals of ToJ5Field / ToJ5Root / ToJ5Object / ToJ5EnumValue / ToJ5Proto and of schemaFromDesc / objectSchemaFromDesc / oneofSchemaFromDesc / enumSchemaFromDesc / objectPropertyFromDesc, intKinds / floatKinds; the model computes with these tables)", CORR, HARNESS,
         "exported-API dump (harness/descgen/dump.go APITerm / RootTerm): source_j5pb.API -> Coq xapi term (packages, indirect flags, sub-packages);: schema_j5pb.RootSchema -> Coq xroot term (the source form, coq/model/ExportForm.v), list-rule / ext / entity payloads as opaque tokens",
-        "modelled, not verified: proto.Equal, protodesc.NewFiles, the services / topics part of APIFromImage (addStructure; the generated descriptor sets have no services)",
+        "services dump (harness/descgen/services.go): ServiceDescriptor -> Coq svcd term (package, name, (j5.ext.v1.service).type, per method: names of input / output message, input field names, google.api.http pattern, (j5.ext.v1.method).state_query flags)",
+        "modelled, not verified: proto.Equal, protodesc.NewFiles. addStructure (services / topics) is modelled as far as it decides the outcome of APIFromImage and the sub-packages of the API (package split, listed-package test, getSubPackage, dispatch on the service name, every error of buildService / buildMethod / buildTopic / buildTopicMethod); the Service / Topic values it builds are not modelled (PackageSetFromSourceAPI never reads them: outside the schema round trip)",
     ],
     "assumptions": [
         "model/Export.v is the hand-written model of ToJ5Root/ToJ5Field and PackageSetFromSourceAPI; which members are copied is read from the Go source on every run; tied to the code by the correspondence stream (first export = model export of the model's reflection; model import of the observed export re-exports to the observed second export)",
@@ -22,6 +23,6 @@ CONFIG = {
 
 MANIFEST = {
     "text": "Theorems over a table-driven Gallina model of the schema export (ToJ5Root / ToJ5Field) and import (PackageSetFromSourceAPI): field-by-field and root-by-root inverse lemmas (every rule, list rule, ext, flatten flag, entity marker, any-membership, enum prefix / option info / info fields), lifted over the reference environment (every schema found again under its name exporting to the same form, nothing added, every reference resolved) and independence of the map iteration order of buildSchemas.",
-    "note": "Proved under the hypothesis wf_keys (enums non-empty, split names of messages / enums / real oneofs distinct: the latter is not guaranteed by a linked set) for every successful reflection (model of APIFromImage: selector, SchemaSetFromFiles, addSchemas with getSchemaSet / getPackage / getSubPackage / splitPackageParts; PackageSetFromSourceAPI with its package naming): export, re-import, re-export gives exactly the same form with every reference resolved (C15_api_roundtrip through the package structure of the API, C15_reflected_roundtrip over the flat list; splitting a package name and re-joining it is the identity, filing into packages / sub-packages keeps every entry exactly once; composing the reader model's invariant with the table-driven export/import model); field-by-field and root-by-root inverse lemmas; independence of the buildSchemas iteration order. Not claimed without wf_keys (split-name collisions). The source form is a separate term type (export : root -> xroot, import : xroot -> root); inline field schemas are representable and proved not importable. Trusted: Coq kernel; translator (copy tables); harness.",
+    "note": "Proved under the hypothesis wf_keys (enums non-empty, split names of messages / enums / real oneofs distinct: the latter is not guaranteed by a linked set) for every successful reflection (model of APIFromImage: addStructure over the services and topics of the image, selector, SchemaSetFromFiles, addSchemas with getSchemaSet / getPackage / getSubPackage / splitPackageParts; PackageSetFromSourceAPI with its package naming): export, re-import, re-export gives exactly the same form with every reference resolved (C15_api_roundtrip through the package structure of the API, C15_reflected_roundtrip over the flat list; splitting a package name and re-joining it is the identity, filing into packages / sub-packages keeps every entry exactly once; composing the reader model's invariant with the table-driven export/import model); field-by-field and root-by-root inverse lemmas; independence of the buildSchemas iteration order; addStructure files no schema (C15_structure_files_no_schema), so the round trip holds whatever services and topics the image has. Not claimed without wf_keys (split-name collisions). The source form is a separate term type (export : root -> xroot, import : xroot -> root); inline field schemas are representable and proved not importable. Trusted: Coq kernel; translator (copy tables); harness.",
     "technique": "Rocq/Coq proof over a model that computes with copy tables regenerated from the Go composite literals + in-Coq differential correspondence (export, re-import, second export) in crash-isolated workers",
 }
